@@ -144,10 +144,49 @@ def evaluate(case):
         amb = parser.is_ambiguous()
         if amb:
             classes.add("table_conflict")
-        for inp in case["inputs"]:
+        plan = [(inp, None) for inp in case["inputs"]]
+        probe = case.get("probe")
+        if probe:
+            # parse(text, start_symbol_name=X) for another symbol X, interleaved with ordinary parses of sentences of X:
+            # the override holds for that one call only, whatever its outcome
+            xc = gk.rename(dict(case["g"], start=probe["sym"]), case["pool"], case["perm"], names)["start"]
+            pi = probe["inputs"]
+            plan += [(pi[0], xc), (pi[1], None), (pi[1], xc), (pi[0], None)]
+            classes.add("start_symbol_override_probe")
+        for inp, override in plan:
             tokens = concrete_tokens(conc, inp["toks"])
             text, _pos = gk.render(tokens, inp["seps"])
             src = text.split("\n") if inp.get("as_list") else text
+            if inp.get("as_list") == "nested_gen":
+                # the text is a lazy iterable of lines; while it is being consumed its producer parses another text with
+                # the same parser object (an include-like construct)
+                def _lines(lines=text.split("\n"), at=inp.get("nest_at", 0)):
+                    for i, ln in enumerate(lines):
+                        if i == at % max(1, len(lines)):
+                            try:
+                                parser.parse("a /* b", do_cleanup=False)
+                            except Exception:   # noqa
+                                pass
+                        yield ln
+                src = _lines()
+                classes.add("nested_parse_while_lines_are_consumed")
+            if inp.get("poison") is not None:
+                # a text the parser must reject, on the same parser object, right before
+                bad = ["a /* never closed", "a $ b", text[:len(text) // 2] + " /*", "", "( ( ("][inp["poison"] % 5]
+                try:
+                    parser.parse(bad, do_cleanup=False)
+                except Exception:   # noqa
+                    pass
+                classes.add("rejected_text_parsed_before")
+            if override is not None:
+                kind, res, stt = parse_guarded(L, parser, src, len(tokens), budget=40000, do_cleanup=False,
+                                               start_symbol_name=override)
+                if kind == "tree":
+                    for b, d in check_tree(res, dict(conc, start=override), tokens):
+                        f.append((b + "_with_start_symbol_override", f"smart_factorization={smart} grammar={conc['prods']!r} "
+                                  f"override={override!r} text={text!r}: {d}"))
+                evals += 1
+                continue
             kind, res, stt = parse_guarded(L, parser, src, len(tokens), budget=40000, do_cleanup=False)
             evals += 1
             if kind == "tree":
@@ -220,7 +259,8 @@ def st_inputs(draw, G, g, n_inputs, max_tokens=12, multiline=True):
         pairs = [[k, draw(st.integers(0, 7))] for k in toks]
         concrete = [(k, gk.lexemes_for(k)[li % len(gk.lexemes_for(k))]) for k, li in pairs]
         seps = draw(gk.st_layout(concrete, multiline=multiline))
-        inputs.append({"toks": pairs, "seps": seps, "as_list": draw(st.integers(0, 3)) == 0, "src": mode})
+        inputs.append({"toks": pairs, "seps": seps, "as_list": draw(st.integers(0, 3)) == 0, "src": mode,
+                       "poison": draw(st.none() | st.none() | st.none() | st.integers(0, 4))})
     return inputs
 
 
@@ -246,7 +286,17 @@ def st_case(draw, max_tokens=12):
                 g["prods"][a] = dedup
     G = gk.Grammar(g["prods"], g["start"], set(g["terms"]))
     inputs = draw(st_inputs(G, g, draw(st.integers(4, 10)), max_tokens=max_tokens))
-    return {"g": g, "pool": draw(st.integers(0, 3)), "perm": draw(st.permutations(list(range(6)))),
+    for inp in inputs:
+        if inp["as_list"] and draw(st.booleans()):
+            inp["as_list"] = "nested_gen"
+            inp["nest_at"] = draw(st.integers(0, 5))
+    probe = None
+    others = [a for a in g["prods"] if a != g["start"]]
+    if others and draw(st.booleans()):
+        x = draw(st.sampled_from(sorted(others)))
+        G2 = gk.Grammar(g["prods"], x, set(g["terms"]))
+        probe = {"sym": x, "inputs": draw(st_inputs(G2, g, 2, max_tokens=max_tokens))}
+    return {"g": g, "probe": probe, "pool": draw(st.integers(0, 3)), "perm": draw(st.permutations(list(range(6)))),
             "syn": draw(st.booleans()), "kw": kw, "explicit_start": draw(st.booleans()), "inputs": inputs,
             "decl": draw(st.sampled_from([None, "bottomup", "shuffle"]).flatmap(
                 lambda d: st.lists(st.integers(0, 9), min_size=6, max_size=6) if d == "shuffle" else st.just(d)))}
